@@ -9,8 +9,11 @@
      ExactlyOnce    = delivered seqs are exactly 0..k-1 (once each, ascending), k covers every frame
                       published so far, k = n once the producer has finished
      NoLag          = no receiver overflowed its bounded channel in this run (explicit hypothesis)
+     mfinal c span work m s = the same with SEVERAL producers on the one stream (producer j emits work[j] frames, each emit
+                      = take the next seq number; record; publish), span = what the emitter's seq mutex covers
    gen_kinds (Gen/StreamOrder.v) is REGENERATED from /repo on every run: the orders of send/push/append in
-   the three producers and of subscribe/snapshot + the filter expression in the three handlers. *)
+   the three producers, of subscribe/snapshot + the filter expression in the three handlers, the channel
+   capacities and the extent of the seq-mutex guard in TaskEmitter::emit (k_span). *)
 From RipV Require Import Base.Prelude Model.Subscribe Proofs.SubscribeProofs Gen.StreamOrder.
 Local Open Scope nat_scope.
 
